@@ -128,6 +128,22 @@ class Non(V):
     pass
 
 
+class Ss(V):
+    """A static set of string constants (column-name bookkeeping)."""
+
+    def __init__(self, items):
+        self.items = frozenset(items)
+
+
+class Ip(V):
+    """A scipy.interpolate.interp1d object built from two float arrays: xs, ys are Coq terms of type list R, mode a Coq term
+    of type Interp.mode (Strict = bounds_error, Fill lo hi, Extrap).  Calling it on a scalar gives the model's
+    interp1d NumR mode xs ys q : option R (None = the ValueError scipy raises outside the range in Strict mode)."""
+
+    def __init__(self, xs, ys, mode):
+        self.xs, self.ys, self.mode = xs, ys, mode
+
+
 RESERVED = {
     "R", "exp", "ln", "sqrt", "pow", "up", "map", "seq", "last", "hd", "tl", "fst", "snd",
     "pair", "length", "full", "id", "at", "in", "fun", "let", "if", "then", "else", "fix",
@@ -230,6 +246,8 @@ class Module:
         ]
         if getattr(self, "uses_numpy", False):
             hdr.append("From BBLib Require Import NumpyDtype.")
+        if getattr(self, "uses_interp", False):
+            hdr.append("From BBLib Require NumSig Interp.")
         for m in self.imports:
             hdr.append(f"From BBRun Require {m.coq_name}.")
         hdr += ["Import ListNotations.", "Open Scope R_scope.", ""]
@@ -500,6 +518,8 @@ class Tr:
             return "(" + ", ".join(self.term_of(i, node) for i in v.d.values()) + ")"
         if isinstance(v, Fn) and v.term:
             return v.term
+        if isinstance(v, Ip):
+            return f"(Interp.interp1d NumSig.NumR {v.mode} {v.xs} {v.ys})"
         fail(node, f"cannot return value of kind {type(v).__name__}")
 
     def assign(self, target, val, env, node):
@@ -584,6 +604,11 @@ class Tr:
 
     def bind(self, nm, val, env, node):
         cn = mangle(nm)
+        if isinstance(val, Sc) and getattr(val, "is_option", False) and not getattr(val, "pair_arity", 0):
+            if not self.option:
+                fail(node, "call of a partial function inside a function not declared partial")
+            env[nm] = Sc(cn)
+            return f"dobind {cn} <- {val.t} ;;\n"
         if isinstance(val, Sc):
             env[nm] = Sc(cn)
             if getattr(val, "pair_arity", 0):
@@ -607,7 +632,7 @@ class Tr:
         if isinstance(val, El):
             env[nm] = El(cn, val.dt, val.mask)
             return f"let {cn} := {val.t} in\n"
-        if isinstance(val, (St, Non, Di, Tu, Fn, Bo, Em, Dt)):
+        if isinstance(val, (St, Non, Di, Tu, Fn, Bo, Em, Dt, Ss, Ip)):
             env[nm] = val
             return ""
         fail(node, f"bind of kind {type(val).__name__}")
@@ -786,6 +811,12 @@ class Tr:
     def ev_JoinedStr(self, node, env):
         return St("<fstring>")
 
+    def ev_Set(self, node, env):
+        items = [self.ev(e, env) for e in node.elts]
+        if not all(isinstance(i, St) for i in items):
+            fail(node, "set literal of non-strings")
+        return Ss(i.s for i in items)
+
     def ev_Name(self, node, env):
         if node.id in env:
             return env[node.id]
@@ -863,6 +894,8 @@ class Tr:
            ast.Mult: ("*", "vmul", "smul", "muls"), ast.Div: ("/", "vdiv", "sdiv", "divs")}
 
     def binop(self, op, l, r, node, rnode):
+        if isinstance(op, ast.Add) and isinstance(l, St) and isinstance(r, St):
+            return St(l.s + r.s)      # message text only
         if isinstance(op, ast.Pow):
             n = as_int_const(rnode) if rnode is not None else None
             if n is not None:
@@ -926,6 +959,9 @@ class Tr:
             if isinstance(l, St) and isinstance(r, (Tu, SV)) and all(isinstance(i, St) for i in r.items):
                 res = l.s in [i.s for i in r.items]
                 return Bo(res if isinstance(op, ast.In) else not res)
+            if isinstance(l, St) and isinstance(r, Ss):
+                res = l.s in r.items
+                return Bo(res if isinstance(op, ast.In) else not res)
             if isinstance(l, St) and isinstance(r, Di):
                 res = l.s in r.d
                 return Bo(res if isinstance(op, ast.In) else not res)
@@ -948,6 +984,8 @@ class Tr:
                 ast.copy_location(fake, node)
                 out.append(self.ev_Compare(fake, {"__l": it, "__r": r}))
             return SV(out)
+        if isinstance(l, Ss) and isinstance(r, Ss) and isinstance(op, (ast.Eq, ast.NotEq)):
+            return Bo((l.items == r.items) if isinstance(op, ast.Eq) else (l.items != r.items))
         if isinstance(l, St) and isinstance(r, St):
             if isinstance(op, ast.Eq):
                 return Bo(l.s == r.s)
@@ -1111,6 +1149,15 @@ class Tr:
     def ev_Call(self, node, env):
         # method-style calls on values first
         f = self.ev(node.func, env)
+        if isinstance(f, Ip):
+            if len(node.args) != 1 or node.keywords:
+                fail(node, "interp1d object call form")
+            q = self.ev(node.args[0], env)
+            if not isinstance(q, Sc):
+                fail(node, "interp1d object applied to a non-scalar")
+            r = Sc(f"(Interp.interp1d NumSig.NumR {f.mode} {f.xs} {f.ys} {q.t})")
+            r.is_option = True      # None = the ValueError scipy raises for a query outside the range (Strict mode)
+            return r
         if not isinstance(f, Fn):
             fail(node, "call of non-function")
         args = []
@@ -1322,6 +1369,9 @@ def _minmax(which):
     def call(tr, node, args, kwargs):
         if kwargs:
             fail(node, "min/max kwargs")
+        if len(args) == 1 and isinstance(args[0], DL):
+            # Python's min / max over a float array: fold from the first element
+            return Sc(f"(fold_right {which} (hd 0 {args[0].t}) {args[0].t})")
         if len(args) == 1 and isinstance(args[0], (SV, Tu)):
             args = args[0].items
         if not args or not all(isinstance(a, Sc) for a in args):
@@ -1560,6 +1610,27 @@ def _zip(tr, node, args, kwargs):
     fail(node, "zip")
 
 
+def _copy(tr, node, args, kwargs):
+    if len(args) != 1 or kwargs:
+        fail(node, "copy.copy form")
+    return args[0]     # values are immutable in the model; what the copy protects (the caller's object) is checked behaviourally
+
+
+def _interp1d(tr, node, args, kwargs):
+    if len(args) != 2 or not all(isinstance(a, DL) for a in args) or set(kwargs) - {"fill_value", "bounds_error"}:
+        fail(node, "interp1d form (two float arrays, optional fill_value / bounds_error)")
+    fv, be = kwargs.get("fill_value"), kwargs.get("bounds_error")
+    if fv is None and be is None:
+        mode = "Interp.Strict"
+    elif isinstance(fv, St) and fv.s == "extrapolate" and be is None:
+        mode = "Interp.Extrap"
+    elif isinstance(fv, Tu) and len(fv.items) == 2 and all(isinstance(i, Sc) for i in fv.items) and isinstance(be, Bo) and be.kind is False:
+        mode = f"(Interp.Fill {fv.items[0].t} {fv.items[1].t})"
+    else:
+        fail(node, "interp1d fill_value / bounds_error combination")
+    return Ip(args[0].t, args[1].t, mode)
+
+
 BUILTINS = {
     "math.exp": _unary("exp"), "np.exp": _unary("exp"),
     "math.log": _unary("ln"), "np.log": _unary("ln"),
@@ -1575,6 +1646,7 @@ BUILTINS = {
     "cumulative_trapezoid": _cumtrapz, "sp.integrate.cumulative_trapezoid": _cumtrapz,
     "integrate.cumulative_trapezoid": _cumtrapz,
     "brentq": _brentq, "quad": _quad,
+    "copy.copy": _copy, "interp1d": _interp1d, "interpolate.interp1d": _interp1d,
     "np.any": _any, "pd.DataFrame": _dataframe, "np.vectorize": _vectorize, "sparse.diags": _diags,
 }
 
@@ -1587,4 +1659,30 @@ def _m_copy(tr, node, args, kwargs):
     return args[0]
 
 
-METHODS = {"sum": _m_sum, "copy": _m_copy}
+def _keys_of(node, v):
+    if isinstance(v, Ss):
+        return v.items
+    if isinstance(v, Di):
+        return frozenset(v.d)
+    fail(node, "set operation on a non-static collection")
+
+
+def _m_intersection(tr, node, args, kwargs):
+    if len(args) != 2 or kwargs or not isinstance(args[0], Ss):
+        fail(node, "set.intersection form")
+    return Ss(args[0].items & _keys_of(node, args[1]))
+
+
+def _m_issubset(tr, node, args, kwargs):
+    if len(args) != 2 or kwargs or not isinstance(args[0], Ss):
+        fail(node, "set.issubset form")
+    return Bo(args[0].items <= _keys_of(node, args[1]))
+
+
+def _m_join(tr, node, args, kwargs):
+    if len(args) != 2 or kwargs or not isinstance(args[0], St) or not isinstance(args[1], (Ss, SV, Tu)):
+        fail(node, "str.join form")
+    return St("<joined>")     # message text only
+
+
+METHODS = {"sum": _m_sum, "copy": _m_copy, "intersection": _m_intersection, "issubset": _m_issubset, "join": _m_join}
